@@ -191,6 +191,22 @@ func TestC15(t *testing.T) {
 	})
 }
 
+// TestC18Stall: a stream client stops reading while its relay is busy, and its allocation is torn
+// down meanwhile; nobody else may be held up by that (see opStallTeardown). A lock-up shows as a
+// frozen bubble, which the wall-clock watchdog of runCase reports.
+func TestC18Stall(t *testing.T) {
+	runProp(t, &propSpec{
+		id: "C18",
+		profile: &Profile{
+			Name: "C18stall", MinSteps: 3, MaxSteps: 16, MaxClient: 3, Streams: true, StallStreams: true, Teardown: true, Fragments: []string{"stall", "stall", "stall", "chan"},
+			Weights: map[string]int{"Allocate": 10, "Refresh": 8, "CreatePermission": 8, "ChannelBind": 8, "Send": 3, "ChannelData": 3, "PeerData": 10, "Sleep": 8, "Binding": 2, "CloseControl": 1},
+		},
+		nontrivial: func(st *Stats, _ *Script) bool {
+			return has(st, "stall-teardown:refresh0") || has(st, "stall-teardown:expire") || has(st, "stall-teardown:close-ctrl") || has(st, "stall-teardown:chan-expire")
+		},
+	})
+}
+
 func TestC03(t *testing.T) {
 	runProp(t, &propSpec{
 		id: "C03",
